@@ -7,7 +7,13 @@ import (
 )
 
 func tryRenameFile(from string, to string) error {
+	if err := verifPoint("inplace.rename.before"); err != nil {
+		return err
+	}
 	if renameError := os.Rename(from, to); renameError != nil {
+		if err := verifPoint("inplace.rename.fallback_entry"); err != nil {
+			return err
+		}
 		log.Debugf("Error renaming from %v to %v, attempting to copy contents", from, to)
 		log.Debug(renameError.Error())
 		log.Debug("going to try copying instead")
@@ -16,7 +22,13 @@ func tryRenameFile(from string, to string) error {
 		if copyError := copyFileContents(from, to); copyError != nil {
 			return fmt.Errorf("failed copying from %v to %v: %w", from, to, copyError)
 		}
+		if err := verifPoint("inplace.rename.after_copy"); err != nil {
+			return err
+		}
 		tryRemoveTempFile(from)
+	}
+	if err := verifPoint("inplace.rename.done"); err != nil {
+		return err
 	}
 	return nil
 }
@@ -39,12 +51,21 @@ func copyFileContents(src, dst string) (err error) {
 		return err
 	}
 	defer safelyCloseFile(in)
+	if err := verifPoint("inplace.copy.after_open_src"); err != nil {
+		return err
+	}
 	out, err := os.Create(dst) // #nosec
 	if err != nil {
 		return err
 	}
 	defer safelyCloseFile(out)
+	if err := verifPoint("inplace.copy.after_create_dst"); err != nil {
+		return err
+	}
 	if _, err = io.Copy(out, in); err != nil {
+		return err
+	}
+	if err := verifPoint("inplace.copy.after_copy"); err != nil {
 		return err
 	}
 	return out.Sync()
